@@ -385,6 +385,33 @@ theorem C18_pbs_node_list (c : Cfg) (chunks : List (List (Nat × Nat))) (ls : Li
     obtain ⟨_, _, e⟩ := mem_map.mp this
     exact e.symm
 
+/-- **CCM: the node file written last is the one that is read**: the chosen file is one of the
+    files found and none of them has a later modification time (metadata changes of an older file
+    do not matter) -/
+theorem C18_ccm_newest (files : List (Nat × List Line)) (h : files ≠ []) :
+    newestFile files ∈ files ∧ ∀ f ∈ files, f.1 ≤ (newestFile files).1 := by
+  induction files with
+  | nil => exact absurd rfl h
+  | cons f fs ih =>
+    unfold newestFile
+    by_cases hfs : fs = []
+    · subst hfs
+      simp [newestFile]
+    · obtain ⟨hm, hle⟩ := ih hfs
+      by_cases hlt : (newestFile fs).1 < f.1
+      · rw [if_pos hlt]
+        refine ⟨mem_cons_self, ?_⟩
+        intro g hg
+        rcases mem_cons.mp hg with rfl | hg
+        · exact Nat.le_refl _
+        · exact Nat.le_of_lt (Nat.lt_of_le_of_lt (hle g hg) hlt)
+      · rw [if_neg hlt, if_neg hfs]
+        refine ⟨mem_cons_of_mem _ hm, ?_⟩
+        intro g hg
+        rcases mem_cons.mp hg with rfl | hg
+        · omega
+        · exact hle g hg
+
 /-- **Slurm: a configured GPU count is what every node gets**, whatever the batch environment
     reports; the environment is consulted only when nothing is configured -/
 theorem C18_slurm_gpus (c : Cfg) (ls : List Line) (hosts : List Name) (envCpus : Option Nat) (detected : Nat)
